@@ -6,13 +6,13 @@ import AY.Lemmas.C04Merge
 import AY.Lemmas.C02Main
 namespace AY
 
-theorem listKeys_append : ∀ (i : Nat) (l₁ l₂ : List (Key × Node)),
+theorem c04_listKeys_append : ∀ (i : Nat) (l₁ l₂ : List (Key × Node)),
     listKeys i (l₁ ++ l₂) = (listKeys i l₁ && listKeys (i + l₁.length) l₂)
   | i, [], l₂ => by simp [listKeys]
   | i, (k, c) :: rest, l₂ => by
-    simp [listKeys, listKeys_append (i + 1) rest l₂, Bool.and_assoc, Nat.add_assoc, Nat.add_comm 1]
+    simp [listKeys, c04_listKeys_append (i + 1) rest l₂, Bool.and_assoc, Nat.add_assoc, Nat.add_comm 1]
 
-theorem listKeys_lookup_none : ∀ (j : Nat) (cs : List (Key × Node)) (i : Nat), listKeys j cs = true →
+theorem c04_listKeys_lookup_none : ∀ (j : Nat) (cs : List (Key × Node)) (i : Nat), listKeys j cs = true →
     (i < j ∨ j + cs.length ≤ i) → alookup (.int (i : Int)) cs = none
   | _, [], _, _, _ => rfl
   | j, (k, c) :: rest, i, h, hi => by
@@ -20,9 +20,9 @@ theorem listKeys_lookup_none : ∀ (j : Nat) (cs : List (Key × Node)) (i : Nat)
     have hne : ¬ (Key.int (j : Int) = Key.int (i : Int)) := by
       intro e; have := Key.int.inj e; simp at hi; omega
     simp only [alookup, h'.1, hne, if_false]
-    exact listKeys_lookup_none (j + 1) rest i h'.2 (by simp at hi; omega)
+    exact c04_listKeys_lookup_none (j + 1) rest i h'.2 (by simp at hi; omega)
 
-theorem validateIndex_nat_lt {len i : Nat} (h : i < len) :
+theorem c04_validateIndex_nat_lt {len i : Nat} (h : i < len) :
     validateIndex len true (.int (i : Int)) = some i := by
   simp only [validateIndex, Bool.and_true]
   have h1 : ¬ ((i : Int).natAbs > len) := by omega
@@ -31,11 +31,11 @@ theorem validateIndex_nat_lt {len i : Nat} (h : i < len) :
   simp [h2, h3]
   omega
 
-theorem validateIndex_nat_len_strict (len : Nat) :
+theorem c04_validateIndex_nat_len_strict (len : Nat) :
     validateIndex len true (.int (len : Int)) = none := by
   simp [validateIndex]
 
-theorem validateIndex_nat_len_lax (len : Nat) :
+theorem c04_validateIndex_nat_len_lax (len : Nat) :
     validateIndex len false (.int (len : Int)) = some len := by
   have h3 : ¬ ((len : Int) < 0) := by omega
   simp [validateIndex, h3]
@@ -51,12 +51,12 @@ theorem c04_mergeStep_list (rec : Node → Node → Except Err (Node × Bool)) (
       ∃ c nw same, alookup (.int (j : Int)) acc = some c ∧ rec c v = .ok (nw, same) ∧
         acc' = aset (.int (j : Int)) (if same then nw else adopt sf sk nw) acc) ∧
     (j = acc.length → acc' = acc ++ [(.int (j : Int), adopt sf sk v)]) := by
-  have hrm := stepRemoves_false rec hrec sk acc (.int (j : Int), v) hv
+  have hrm := c04_stepRemoves_false rec hrec sk acc (.int (j : Int), v) hv
   constructor
   · intro hlt
     obtain ⟨c, hl, _⟩ := listKeys_lookup acc 0 j hkeys hlt
     rw [Nat.zero_add] at hl
-    have hvi := validateIndex_nat_lt hlt
+    have hvi := c04_validateIndex_nat_lt hlt
     have hg : getChild sk (.int (j : Int)) acc = some c := by simp [getChild, hsk, hvi, hl]
     have hset : ∀ x, setChild sf sk (.int (j : Int)) x acc = .ok (aset (.int (j : Int)) (adopt sf sk x) acc) := by
       intro x; simp [setChild, hsk, validateIndex_lax_of_strict hvi]
@@ -90,17 +90,17 @@ theorem c04_mergeStep_list (rec : Node → Node → Except Err (Node × Bool)) (
   · intro he
     subst he
     have hg : getChild sk (.int (acc.length : Int)) acc = none := by
-      simp [getChild, hsk, validateIndex_nat_len_strict]
+      simp [getChild, hsk, c04_validateIndex_nat_len_strict]
     have hnone : alookup (.int (acc.length : Int)) acc = none :=
-      listKeys_lookup_none 0 acc acc.length hkeys (.inr (by omega))
+      c04_listKeys_lookup_none 0 acc acc.length hkeys (.inr (by omega))
     simp only [mergeStep, hg] at h
     split at h
     · cases h
-    · simp only [setChild, hsk, Bool.false_eq_true, if_false, validateIndex_nat_len_lax] at h
+    · simp only [setChild, hsk, Bool.false_eq_true, if_false, c04_validateIndex_nat_len_lax] at h
       injection h with h
       rw [← h, aset_of_lookup_none _ _ _ hnone]
 
-theorem alookup_append_left {α : Type} (k : Key) (l₁ l₂ : List (Key × α)) (c : α)
+theorem c04_alookup_append_left {α : Type} (k : Key) (l₁ l₂ : List (Key × α)) (c : α)
     (h : alookup k l₁ = some c) : alookup k (l₁ ++ l₂) = some c := by
   induction l₁ with
   | nil => simp [alookup] at h
@@ -111,7 +111,7 @@ theorem alookup_append_left {α : Type} (k : Key) (l₁ l₂ : List (Key × α))
     · simp only [alookup, e, if_false] at h
       simp [alookup, e, ih h]
 
-theorem alookup_append_right {α : Type} (k : Key) (l₁ l₂ : List (Key × α))
+theorem c04_alookup_append_right {α : Type} (k : Key) (l₁ l₂ : List (Key × α))
     (h : alookup k l₁ = none) : alookup k (l₁ ++ l₂) = alookup k l₂ := by
   induction l₁ with
   | nil => rfl
@@ -154,7 +154,7 @@ theorem c04_mergeLoop_list (rec : Node → Node → Except Err (Node × Bool)) (
       simp only [hs] at h
       obtain ⟨s1, s2⟩ := c04_mergeStep_list rec hrec hsk hk hj hd'.1 hs
       have hjrest : alookup (.int (j : Int)) rest = none :=
-        listKeys_lookup_none (j + 1) rest j hkrest (.inl (by omega))
+        c04_listKeys_lookup_none (j + 1) rest j hkrest (.inl (by omega))
       -- facts about `acc1`
       have hacc1 : listKeys 0 acc1 = true ∧ j + 1 ≤ acc1.length ∧
           acc1.length = max acc.length (j + 1) ∧
@@ -175,15 +175,15 @@ theorem c04_mergeLoop_list (rec : Node → Node → Except Err (Node × Bool)) (
           have e := s2 he
           subst e
           refine ⟨?_, by simp; omega, by simp; omega, ?_⟩
-          · rw [listKeys_append]; simp [hk, listKeys, he]
+          · rw [c04_listKeys_append]; simp [hk, listKeys, he]
           · intro i hi
             by_cases hin : i < acc.length
             · obtain ⟨c, hc, _⟩ := listKeys_lookup acc 0 i hk hin
               rw [Nat.zero_add] at hc
-              rw [alookup_append_left _ _ _ _ hc, hc]
+              rw [c04_alookup_append_left _ _ _ _ hc, hc]
             · have hn : alookup (.int (i : Int)) acc = none :=
-                listKeys_lookup_none 0 acc i hk (.inr (by omega))
-              rw [alookup_append_right _ _ _ hn, hn]
+                c04_listKeys_lookup_none 0 acc i hk (.inr (by omega))
+              rw [c04_alookup_append_right _ _ _ hn, hn]
               have : ¬ (Key.int (j : Int) = Key.int (i : Int)) := by
                 intro e; have := Key.int.inj e; omega
               simp [alookup, this]
@@ -211,8 +211,8 @@ theorem c04_mergeLoop_list (rec : Node → Node → Except Err (Node × Bool)) (
           · have he : i = acc.length := by omega
             rw [if_neg (by omega), s2 he]
             have hn : alookup (.int (i : Int)) acc = none :=
-              listKeys_lookup_none 0 acc i hk (.inr (by omega))
-            rw [alookup_append_right _ _ _ hn]
+              c04_listKeys_lookup_none 0 acc i hk (.inr (by omega))
+            rw [c04_alookup_append_right _ _ _ hn]
             simp [alookup]
         · have hne : ¬ (Key.int (j : Int) = Key.int (i : Int)) := by
             intro e; have := Key.int.inj e; omega
